@@ -24,7 +24,7 @@ class C35(Check):
     design_ref = "§6 C35"
     rule = ("queues of 1-6 uniquely numbered packets over 1-3 destinations (more queued between passes), a list of service "
             "passes each with the set of destinations that transiently fail during it (errno drawn from the transient set), "
-            "then fault-free passes (full passes, or in 30% of the runs one-packet passes) until the queue drains; non-trivial = some destination failed while packets to another "
+            "in some passes the error is reported once only; some packets for destination 0 are queued without an address (default destination); then fault-free passes (full passes, or in 30% of the runs one-packet passes) until the queue drains; non-trivial = some destination failed while packets to another "
             "destination or later packets to itself were queued; distinct = digest of (queue, failure pattern)")
     components = {"real": ["ioflo.aio.proto.stacking.UdpStack / GramStack.serviceTxPkts", "ioflo.aio.udp.udping.SocketUdpNb"],
                   "stub": ["socket module (UDP)", "packets (pre-packed bytes)"]}
